@@ -178,7 +178,8 @@ def run(ctx):
                 if why:
                     kk = "quad/bwd/unused-tensor-raises" if "not have been used" in why else ("quad/bwd/options-not-forwarded" if "-point rule on the derivative" in why else "quad/bwd/kinds")
                     ctx.violation(kk, "quad of an EditableModule method, n=%s, bck n=%s, limits %s: %s" % (nf_, nb_, lims, why), {"n": nf_, "nb": nb_, "lims": lims})
-    ctx.replayed = len(states)
+    from vlib import gradpattern
+    ctx.replayed = len(states) + gradpattern.replay(ctx, ["quad"], "quad")
     ctx.notes.update(cases=n)
     ctx.exhaustive = True
     ctx.assumptions += [
